@@ -242,6 +242,20 @@ def counter_step(idx, loop, slot):
     rets = return_exprs(body)
     if not rets:
         return None, "body has no return"
+    # the body may delegate the step to a helper: state = step(state, ...); return state
+    if len(rets) == 1 and not isinstance(body, ast.Lambda):
+        e = inline_expr(idx, body, rets[0])
+        if isinstance(e, ast.Name):
+            vals = [v for v, p, st in df.assignments(fn_node(body), into_nested=False).get(e.id, []) if p is None and isinstance(v, ast.Call)]
+            if len(vals) == 1:
+                e = vals[0]
+        callee, bound = expand_call(idx, body, e)
+        if callee is not None:
+            sp = [p for p, a in bound.items() if isinstance(a, ast.Name) and a.id == state]
+            if sp:
+                body, state = callee, sp[0]
+                slots = state_slots(body, state)
+                rets = return_exprs(body)
     for r in rets:
         r = r if isinstance(body, ast.Lambda) else r
         if not isinstance(r, ast.Tuple):
@@ -265,18 +279,44 @@ def counter_step(idx, loop, slot):
     return True, "counter incremented by one per body execution"
 
 
-def init_slot(loop, slot):
-    """expression of the initial value of a state slot, when the init value is a literal tuple
-    or a name assigned from one in the owner"""
+def init_slot(loop, slot, idx=None):
+    """expression of the initial value of a state slot, when the init value is a literal tuple,
+    a name assigned from one in the owner, or the result of a helper that returns one"""
     init = loop.init
-    if isinstance(init, ast.Name):
-        vals = df.assignments(loop.owner.node, into_nested=False).get(init.id, [])
-        tuples = [v for v, p, st in vals if p is None and isinstance(v, ast.Tuple)]
-        if len(tuples) == 1:
-            init = tuples[0]
+    owner = loop.owner
+    for _ in range(3):
+        if isinstance(init, ast.Name):
+            vals = df.assignments(owner.node, into_nested=False).get(init.id, [])
+            plain = [v for v, p, st in vals if p is None]
+            tuples = [v for v in plain if isinstance(v, ast.Tuple)]
+            if len(tuples) == 1:
+                init = tuples[0]
+            elif len(plain) == 1 and isinstance(plain[0], ast.Call) and idx is not None:
+                init = plain[0]
+            elif owner.parent is None and init.id in fn_params(owner) and idx is not None:
+                # init value is a parameter: look at the (single) caller
+                break
+            else:
+                break
+        if isinstance(init, ast.Call) and idx is not None:
+            r = idx.resolve_expr(owner.module, init.func, owner)
+            if r is not None and r.kind == "funcs" and getattr(r.val[-1], "rule", None) is None:
+                callee = r.val[-1]
+                rets = [x.value for x in df.returns(callee.node) if x.value is not None]
+                if len(rets) == 1:
+                    init, owner = rets[0], callee
+                    continue
+        break
     if isinstance(init, ast.Tuple):
         try:
-            return init.elts[slot]
+            e = init.elts[slot]
         except IndexError:
             return None
+        if isinstance(e, ast.Name):
+            vals = df.assignments(owner.node, into_nested=False).get(e.id, [])
+            plain = [v for v, p, st in vals if p is None]
+            if len(plain) == 1:
+                return plain[0]
+        return e
     return None
+
